@@ -113,29 +113,44 @@ Definition rb_build_node (g : graph) (avail : list nat) (seed : nat) : option (d
     end
   end.
 
-Fixpoint rb_loop (g : graph) (ids : list nat) (avail : list nat) : option graph :=
+(* the outer loop; besides the new node it records the node path (node id, side entered) it was built from -
+   build_node returns it as well, compress_graph drops it *)
+Fixpoint rb_loop (g : graph) (ids : list nat) (avail : list nat) : option (list (gnode D * list (nat * dir))) :=
   match ids with
   | [] => Some []
   | i :: rest =>
     if mem_nat i avail then
       match rb_build_node g avail i with
       | None => None
-      | Some (sq, e, dt, _, a') => match rb_loop g rest a' with Some r => Some ((sq, e, dt) :: r) | None => None end
+      | Some (sq, e, dt, p, a') =>
+        match rb_loop g rest a' with Some r => Some (((sq, e, dt), p) :: r) | None => None end
       end
     else rb_loop g rest avail
   end.
 
-Definition compress_graph (old : graph) (censor : option (list nat)) : option graph :=
+Definition initial_avail (n : nat) (censor : option (list nat)) : list nat :=
+  match censor with
+  | Some c => filter (fun i => negb (mem_nat i c)) (seq 0 n)
+  | None => seq 0 n end.
+
+(* the result graph together with the node paths (not observable in the Rust API; used by the theorems) *)
+Definition compress_graph_paths (old : graph) (censor : option (list nat))
+  : option (graph * list (list (nat * dir))) :=
   let n := length old in
-  let avail := match censor with
-               | Some c => filter (fun i => negb (mem_nat i c)) (seq 0 n)
-               | None => seq 0 n end in
+  let avail := initial_avail n censor in
   match fix_exts D K stranded old (Some avail) with
   | None => None
   | Some g1 =>
     match rb_loop g1 (seq 0 n) avail with
     | None => None
-    | Some g2 => fix_exts D K stranded g2 None
+    | Some r =>
+      match fix_exts D K stranded (map fst r) None with
+      | Some out => Some (out, map snd r)
+      | None => None
+      end
     end
   end.
+
+Definition compress_graph (old : graph) (censor : option (list nat)) : option graph :=
+  option_map fst (compress_graph_paths old censor).
 End Recompress.
